@@ -2,6 +2,11 @@
 # Layer 1 — faithful model of `miros/hsm.py` `HsmEventProcessor`
 
 `init` (start_at), `dispatch`, `trans_`, `is_in`, `child_state`, loop for loop.
+A chart may contain *fall-through* states (`Chart.fall`): handlers written as an `if/elif` ladder
+without the final `else: temp = parent; return SUPER`.  Such a handler returns `None` and leaves
+`temp` alone for every signal it has no clause for.  Every site of the processor that needs the
+status raises; the sites that ignore it go on.  For `fall = false` every definition below is its
+previous self (`if c.fall x then … else <old body>`).
 The model keeps the implementation's entry-path buffer `tpath` and its
 high-water index `max_index` (the `store` function), so that defects of the
 buffer handling are defects of the model too.
@@ -22,7 +27,8 @@ inductive React
   | tran (t : St)   -- `return chart.trans(t)`
   | handled         -- `return HANDLED`
   | unhandled       -- `return UNHANDLED` (failed guard): processor sends EMPTY_SIGNAL next
-  | pass            -- falls to the `else:` branch: `SUPER`, `temp := parent`
+  | pass            -- no clause: the `else:` branch (`SUPER`, `temp := parent`);
+                    -- a fall-through state has no `else:` and returns `None`
   | none            -- malformed handler: returns `None`
 deriving DecidableEq, Repr
 
@@ -31,6 +37,7 @@ structure Chart where
   init  : St → Option St      -- `some t`: INIT_SIGNAL answered with `trans(t)`
   exitH : St → Bool           -- EXIT_SIGNAL answered HANDLED (true) / falls to SUPER (false)
   depth : Nat                 -- bound on the depth of the state tree (fuel for init chains)
+  fall  : St → Bool           -- the handler has no final `else:` (answers `None` where it has no clause)
 
 /-- source-level switches; the values for the current tree are generated into
 `MirosModel.Gen.Constants` by `harness/gen_constants.py` -/
@@ -55,13 +62,13 @@ abbrev Log := List Call
 structure Ctx where
   temp : St
   log  : Log
-deriving Repr
+deriving DecidableEq, Repr
 
 inductive Outcome (α : Type)
   | ok (a : α)
   | raise (log : Log)      -- HsmTopologyException / AssertionError
   | diverge (log : Log)    -- the Python loop provably never terminates
-deriving Repr
+deriving DecidableEq, Repr
 
 /-- `x(self, super_e)`: a real handler sets `temp := parent` and returns SUPER;
 `top` returns IGNORED and leaves `temp` alone (and is not a visible handler call). -/
@@ -70,13 +77,33 @@ def probe (x : St) (k : Ctx) : Ctx :=
   | [] => k
   | _ :: p => { temp := p, log := k.log ++ [⟨x, .search⟩] }
 
-/-- `x(self, exit_e)`; returns "status == HANDLED" -/
+/-- `x(self, super_e)` answers `None` and leaves `temp` alone: `x` is a fall-through state -/
+def noSuper (c : Chart) (x : St) : Bool :=
+  match x with
+  | [] => false
+  | _ :: _ => c.fall x
+
+/-- the parent query put to a fall-through state: the call is made, `temp` stays -/
+def probeNone (x : St) (k : Ctx) : Ctx := { k with log := k.log ++ [⟨x, .search⟩] }
+
+/-- `x(self, super_e)` at a site that ignores the status -/
+def probeAny (c : Chart) (x : St) (k : Ctx) : Ctx :=
+  if noSuper c x then probeNone x k else probe x k
+
+/-- `x(self, exit_e)`; returns "status == HANDLED".  A fall-through state without exit clause
+answers `None` (not HANDLED) and does not move `temp`. -/
 def callExit (c : Chart) (x : St) (k : Ctx) : Bool × Ctx :=
   match x with
   | [] => (false, k)
   | _ :: p =>
     if c.exitH x then (true, { k with log := k.log ++ [⟨x, .exit⟩] })
+    else if c.fall x then (false, { k with log := k.log ++ [⟨x, .exit⟩] })
     else (false, { temp := p, log := k.log ++ [⟨x, .exit⟩] })
+
+/-- the calls made at a site that needs the exit status of the fall-through state `t`, up to the
+raise: `t(exit_e)` is `None`; or it is HANDLED and then `t(super_e)` is `None` -/
+def exitNoneLog (c : Chart) (t : St) (k : Ctx) : Log :=
+  if c.exitH t then k.log ++ [⟨t, .exit⟩, ⟨t, .search⟩] else k.log ++ [⟨t, .exit⟩]
 
 /-- `x(self, entry_e)` (status ignored by every caller) -/
 def callEntry (x : St) (k : Ctx) : Ctx :=
@@ -84,7 +111,8 @@ def callEntry (x : St) (k : Ctx) : Ctx :=
   | [] => k
   | _ => { k with log := k.log ++ [⟨x, .entry⟩] }
 
-/-- `x(self, init_e)`; returns "status == TRAN" (then `temp` is the target) -/
+/-- `x(self, init_e)`; returns "status == TRAN" (then `temp` is the target).  Without init clause
+the answer is "not TRAN" and `temp` is not used afterwards (SUPER, HANDLED or `None` alike). -/
 def callInit (c : Chart) (x : St) (k : Ctx) : Bool × Ctx :=
   match x with
   | [] => (false, k)
@@ -97,7 +125,7 @@ inductive Found
   | ignored | handled | tran (s : St) | bad
 deriving Repr
 
-/-- first loop of `dispatch` (hsm.py 554-574) -/
+/-- first loop of `dispatch` (hsm.py 562-586): `r is None` raises (`.bad`), also after EMPTY_SIGNAL -/
 def searchLoop (c : Chart) (n : Nat) : St → Ctx → Found × Ctx
   | [], k => (.ignored, k)
   | s@(_ :: p), k =>
@@ -105,17 +133,22 @@ def searchLoop (c : Chart) (n : Nat) : St → Ctx → Found × Ctx
     match c.react s n with
     | .tran t    => (.tran s, { k1 with temp := t })
     | .handled   => (.handled, k1)
-    | .unhandled => searchLoop c n p { temp := p, log := k1.log ++ [⟨s, .empty⟩] }
-    | .pass      => searchLoop c n p { k1 with temp := p }
+    | .unhandled =>
+      if c.fall s then (.bad, { k1 with log := k1.log ++ [⟨s, .empty⟩] })
+      else searchLoop c n p { temp := p, log := k1.log ++ [⟨s, .empty⟩] }
+    | .pass      =>
+      if c.fall s then (.bad, k1)
+      else searchLoop c n p { k1 with temp := p }
     | .none      => (.bad, k1)
 
-/-- exit walk `while t != s` of `dispatch` (596-603) -/
+/-- exit walk `while t != s` of `dispatch` (608-617); both answers are checked for `None` -/
 def exitWalk (c : Chart) (s : St) : St → Ctx → Outcome Ctx
   | t, k =>
     if t = s then .ok k else
     match t with
     | [] => .diverge k.log      -- top(exit) is IGNORED and temp stays on top for ever
     | _ :: p =>
+      if c.fall t then .raise (exitNoneLog c t k) else
       let (h, k1) := callExit c t k
       let k2 := if h then probe t k1 else k1
       exitWalk c s p k2
@@ -137,17 +170,20 @@ structure EOut where
   mx    : Nat
   k     : Ctx
 
-/-- loop (e) of `trans_`; `x` is `temp`, already the result of a SUPER probe -/
-def eLoop (S : St) : St → List St → Nat → Nat → Ctx → Option EOut
+/-- loop (e) of `trans_`; `x` is `temp`, already the result of a SUPER probe.
+`.raise`: IndexError on the buffer, or a fall-through state asked for its parent. -/
+def eLoop (c : Chart) (S : St) : St → List St → Nat → Nat → Ctx → Outcome EOut
   | x, tp, mx, ip, k =>
     let ip1 := ip + 1
     match store tp mx ip1 x with
-    | none => none
+    | none => .raise k.log
     | some (tp1, mx1) =>
-      if x = S then some ⟨true, ip1 - 1, tp1, mx1, k⟩
+      if x = S then .ok ⟨true, ip1 - 1, tp1, mx1, k⟩
       else match x with
-        | [] => some ⟨false, ip1, tp1, mx1, k⟩
-        | _ :: p => eLoop S p tp1 mx1 ip1 (probe x k)
+        | [] => .ok ⟨false, ip1, tp1, mx1, k⟩
+        | _ :: p =>
+          if c.fall x then .raise (probeNone x k).log
+          else eLoop c S p tp1 mx1 ip1 (probe x k)
 
 /-- downward scan `iq = ip … 0` for `t` in the buffer (loops f and g) -/
 def scan (t : St) (tp : List St) : Nat → Option Nat
@@ -158,6 +194,7 @@ def scan (t : St) (tp : List St) : Nat → Option Nat
 def gLoop (c : Chart) (tp : List St) (ip : Nat) : St → Ctx → Outcome (Int × Ctx)
   | [], k => .diverge k.log
   | t@(_ :: p), k =>
+    if c.fall t then .raise (exitNoneLog c t k) else
     let (h, k1) := callExit c t k
     let k2 := if h then probe t k1 else k1
     match scan p tp ip with
@@ -176,10 +213,12 @@ def trans_ (c : Chart) (tp0 : List St) (mx : Nat) (T S : St) (k : Ctx) : Outcome
     let (_, k1) := callExit c S k
     .ok ⟨0, tp0, mx, k1⟩
   else
+    if noSuper c T then .raise (probeNone T k).log else
     let k1 := probe T k
     let t := k1.temp
     if S = t then .ok ⟨0, tp0, mx, k1⟩            -- (b)
     else
+      if noSuper c S then .raise (probeNone S k1).log else
       let k2 := probe S k1
       if k2.temp = t then                         -- (c)
         let (_, k3) := callExit c S k2
@@ -190,14 +229,16 @@ def trans_ (c : Chart) (tp0 : List St) (mx : Nat) (T S : St) (k : Ctx) : Outcome
       else
         let tp1 := tp0.set 1 t
         let sSuper := k2.temp
+        if noSuper c t then .raise (probeNone t k2).log else
         let k3 := probe t k2
-        let e : Option EOut :=
+        let e : Outcome EOut :=
           match t with
-          | [] => some ⟨false, 1, tp1, mx, k3⟩    -- T->super is top: r = IGNORED
-          | _ :: _ => eLoop S k3.temp tp1 mx 1 k3
+          | [] => .ok ⟨false, 1, tp1, mx, k3⟩     -- T->super is top: r = IGNORED
+          | _ :: _ => eLoop c S k3.temp tp1 mx 1 k3
         match e with
-        | none => .raise k3.log
-        | some ⟨found, ip, tp2, mx2, k4⟩ =>
+        | .raise l => .raise l
+        | .diverge l => .diverge l
+        | .ok ⟨found, ip, tp2, mx2, k4⟩ =>
           if found then .ok ⟨ip, tp2, mx2, k4⟩    -- (e)
           else
             let (_, k5) := callExit c S k4
@@ -216,11 +257,12 @@ def enterDown (tp : List St) : Nat → Ctx → Ctx
 
 inductive Climb
   | done (ip : Nat) (tp : List St) (mx : Nat) (k : Ctx)
-  | top (k : Ctx)         -- reached `top` without meeting the goal
+  | top (k : Ctx)         -- reached `top` (or a state that does not name its parent) without meeting the goal
   | index (k : Ctx)       -- IndexError on the buffer
 
-/-- `while temp != goal: ip += 1; store; temp(super)` -/
-def climb (goal : St) : St → List St → Nat → Nat → Ctx → Climb
+/-- `while temp != goal: ip += 1; store; temp(super)`; a fall-through state leaves `temp` on itself,
+which is what the repeat-parent check of the drill-down catches (`.top`) -/
+def climb (c : Chart) (goal : St) : St → List St → Nat → Nat → Ctx → Climb
   | x, tp, mx, ip, k =>
     if x = goal then .done ip tp mx k else
     match x with
@@ -228,7 +270,9 @@ def climb (goal : St) : St → List St → Nat → Nat → Ctx → Climb
     | _ :: p =>
       match store tp mx (ip + 1) x with
       | none => .index k
-      | some (tp1, mx1) => climb goal p tp1 mx1 (ip + 1) (probe x k)
+      | some (tp1, mx1) =>
+        if c.fall x then .top (probeNone x k)
+        else climb c goal p tp1 mx1 (ip + 1) (probe x k)
 
 /-- the init drill-down of `dispatch` (626-646); `fuel` bounds the number of
 initial transitions followed (a well-formed chart needs at most `depth`). -/
@@ -240,8 +284,8 @@ def drill (c : Chart) (g : Cfg) : Nat → St → List St → Nat → Ctx → Out
     let tgt := k1.temp
     if g.drillGuard && tgt = t then .raise k1.log else
     let tp1 := tp.set 0 tgt
-    let k2 := probe tgt k1
-    match climb t k2.temp tp1 mx 0 k2 with
+    let k2 := probeAny c tgt k1
+    match climb c t k2.temp tp1 mx 0 k2 with
     | .top k3 => if g.drillGuard then .raise k3.log else .diverge k3.log
     | .index k3 => .raise k3.log
     | .done ip tp2 mx2 k3 =>
@@ -252,7 +296,7 @@ structure Res where
   state : St
   temp  : St
   log   : Log
-deriving Repr
+deriving DecidableEq, Repr
 
 /-- `HsmEventProcessor.dispatch` (531-662). `cur` is `state.fun`; `temp.fun = cur` on entry. -/
 def dispatch (c : Chart) (g : Cfg) (cur : St) (n : Nat) : Outcome Res :=
@@ -283,16 +327,25 @@ inductive ClimbI
   | done (idx : Nat) (tp : List St) (mx : Nat) (k : Ctx)
   | fail (k : Ctx)        -- `top` visited twice (HsmTopologyException) or IndexError
 
-/-- the parent walk of `init()` (392-402): raises when `top` is visited twice -/
-def climbInit (outer : St) : St → List St → Nat → Nat → Ctx → ClimbI
+/-- the parent walk of `init()` (392-402): raises when `top` is visited twice, and when a
+fall-through state is: its parent query leaves `temp` on itself.  `previous_super` starts as `None`,
+so the init target itself (`idx = 0`) is asked twice before the repeat is seen. -/
+def climbInit (c : Chart) (outer : St) : St → List St → Nat → Nat → Ctx → ClimbI
   | x, tp, mx, idx, k =>
     if x = outer then .done idx tp mx k else
     match x with
     | [] => .fail k
     | _ :: p =>
+      if c.fall x then
+        (if idx = 0 then
+          match store tp mx (idx + 1) x with
+          | none => .fail (probeNone x k)
+          | some _ => .fail (probeNone x (probeNone x k))
+        else .fail (probeNone x k))
+      else
       match store tp mx (idx + 1) p with
       | none => .fail k
-      | some (tp1, mx1) => climbInit outer p tp1 mx1 (idx + 1) (probe x k)
+      | some (tp1, mx1) => climbInit c outer p tp1 mx1 (idx + 1) (probe x k)
 
 /-- `index -= 1; tpath[index](entry); if index <= 0: break` for `index ≥ 1` on entry -/
 def enterInit (tp : List St) : Nat → Ctx → Ctx
@@ -308,7 +361,7 @@ def initLoop (c : Chart) (g : Cfg) : Nat → St → List St → Nat → Ctx → 
     if tgt = outer then
       (if g.initGuard then .raise k.log else .diverge k.log)
     else
-    match climbInit outer tgt tp0 mx 0 k with
+    match climbInit c outer tgt tp0 mx 0 k with
     | .fail k1 => .raise k1.log
     | .done idx tp1 mx1 k1 =>
       let k2 := enterInit tp1 idx { k1 with temp := tgt }
@@ -323,28 +376,38 @@ def startAt (c : Chart) (g : Cfg) (s : St) : Outcome Res :=
   | .diverge l => .diverge l
   | .ok (t, k) => .ok ⟨t, t, k.log⟩
 
-/-- `is_in(X)` (944-958): walk `temp` outward from the current state -/
-def isInWalk (X : St) : St → Ctx → Bool × Ctx
+/-- `is_in(X)` (979-996): walk `temp` outward from the current state.  The loop only ends on
+IGNORED: a fall-through state other than `X` answers `None`, `temp` stays on it, and the loop asks
+it again for ever (`.diverge`, with the log up to the first such call). -/
+def isInWalk (c : Chart) (X : St) : St → Ctx → Outcome (Bool × Ctx)
   | x, k =>
-    if x = X then (true, k) else
+    if x = X then .ok (true, k) else
     match x with
-    | [] => (false, k)
-    | _ :: p => isInWalk X p (probe x k)
+    | [] => .ok (false, k)
+    | _ :: p =>
+      if c.fall x then .diverge (probeNone x k).log
+      else isInWalk c X p (probe x k)
 
-def isIn (cur X : St) : Bool × Res :=
-  let (b, k) := isInWalk X cur { temp := cur, log := [] }
-  (b, ⟨cur, cur, k.log⟩)
+def isIn (c : Chart) (cur X : St) : Outcome (Bool × Res) :=
+  match isInWalk c X cur { temp := cur, log := [] } with
+  | .ok (b, k) => .ok (b, ⟨cur, cur, k.log⟩)
+  | .raise l => .raise l
+  | .diverge l => .diverge l
 
-/-- `child_state(P)` (991-1008): `none` = AssertionError -/
-def childWalk (P : St) : St → St → Ctx → Option St × Ctx
+/-- `child_state(P)` (998-1050): `none` = AssertionError; the same loop as `is_in` -/
+def childWalk (c : Chart) (P : St) : St → St → Ctx → Outcome (Option St × Ctx)
   | x, child, k =>
-    if x = P then (some child, k) else
+    if x = P then .ok (some child, k) else
     match x with
-    | [] => (none, k)
-    | _ :: p => childWalk P p x (probe x k)
+    | [] => .ok (none, k)
+    | _ :: p =>
+      if c.fall x then .diverge (probeNone x k).log
+      else childWalk c P p x (probe x k)
 
-def childState (cur P : St) : Option St × Res :=
-  let (r, k) := childWalk P cur cur { temp := cur, log := [] }
-  (r, ⟨cur, cur, k.log⟩)
+def childState (c : Chart) (cur P : St) : Outcome (Option St × Res) :=
+  match childWalk c P cur cur { temp := cur, log := [] } with
+  | .ok (r, k) => .ok (r, ⟨cur, cur, k.log⟩)
+  | .raise l => .raise l
+  | .diverge l => .diverge l
 
 end Miros.Hsm
